@@ -710,6 +710,17 @@ func (env *SpecEnv) evalCall(x *ast.CallExpr) TV {
 	switch name {
 	case "__imp":
 		return boolTV(implies(env.evalBoolExpr(x.Args[0]), env.evalBoolExpr(x.Args[1])))
+	case "local":
+		// local(name): the function's own variable of that name, even where a contract keyword
+		// (result, arg0, ...) shadows it
+		id, ok := x.Args[0].(*ast.Ident)
+		if !ok {
+			specErr("local(name)")
+		}
+		if tv, ok := env.lookupInAct(id.Name); ok {
+			return tv
+		}
+		specErr("unknown local %q", id.Name)
 	case "old":
 		if env.old == nil {
 			specErr("old() not available here")
